@@ -41,6 +41,10 @@ partial def loop (h : IO.FS.Stream) (iso : List ((String × Nat) × String)) : I
   | some ("iso", [kind, p], [d]) =>
     IO.println "OK"
     loop h (((kind, p.toNat!), d) :: iso)
+  | some ("sane", [_, _], [v]) =>
+    -- an isolated object must hold the construction parameters it was given (e.g. after its caller reused the array it was built from)
+    IO.println (if v == "1" then "OK" else s!"DIFF kind=SPEC model=1 | {line.trimAscii.toString}")
+    loop h iso
   | _ =>
     IO.println (judge iso line)
     loop h iso
